@@ -55,6 +55,9 @@ type Scenario struct {
 	Mode string `json:"mode"`
 	// FullStartMs delays the start of the full node's loops (a node that joins an existing chain).
 	FullStartMs int `json:"full_start_ms,omitempty"`
+	// MempoolTTL (DA blocks a submission is given to be included; 0 = 2): after a "not included" / "already
+	// in mempool" answer the submission loop pauses for DA block time x MempoolTTL (25 is the default config).
+	MempoolTTL int `json:"mempool_ttl,omitempty"`
 }
 
 func gen(t *rapid.T) Scenario {
@@ -87,6 +90,16 @@ func gen(t *rapid.T) Scenario {
 			sc.HeaderScript = append(sc.HeaderScript, r)
 		} else {
 			sc.DataScript = append(sc.DataScript, r)
+		}
+	}
+	if rapid.IntRange(0, 2).Draw(t, "ttl") == 0 {
+		sc.MempoolTTL = 25
+		// make sure a long retry pause happens: a submission is answered "not included" / "already in mempool"
+		r := world.SubmitResp{Kind: rapid.SampledFrom([]string{"timeout", "mempool"}).Draw(t, "pausekind")}
+		if rapid.Bool().Draw(t, "pausewhich") {
+			sc.HeaderScript = append([]world.SubmitResp{r}, sc.HeaderScript...)
+		} else {
+			sc.DataScript = append([]world.SubmitResp{r}, sc.DataScript...)
 		}
 	}
 	if rapid.IntRange(0, 9).Draw(t, "hang") == 0 {
@@ -144,6 +157,9 @@ func run(sc Scenario, dir string) world.Verdict {
 		o := world.NodeOpts{ChainID: "c13-chain", InitialHeight: 1, RootDir: root + "/a", GenesisTime: gt, Lazy: sc.Lazy,
 			BlockTime: time.Duration(sc.BlockMs) * time.Millisecond, DABlockTime: time.Duration(sc.DAMs) * time.Millisecond,
 			LazyInterval: time.Duration(sc.LazyMs) * time.Millisecond, MempoolTTL: 2}
+		if sc.MempoolTTL > 0 {
+			o.MempoolTTL = uint64(sc.MempoolTTL)
+		}
 		p, err := pw.New(o)
 		if err != nil {
 			return world.Fail("C13/start", "aggregator does not start: %v", err)
